@@ -26,6 +26,9 @@ type leaseState struct {
 }
 
 func (s *lease4) serialCheck(w *World) {
+	if w.O.Prop != "C16" {
+		return // the serializability oracle belongs to C16; C02/C03 have their own oracles
+	}
 	if w.Inc != 1 || s.sqlFaults {
 		return // restarts and injected store failures are judged by C02/C03's oracles, not by this model
 	}
@@ -85,7 +88,7 @@ func (s *lease4) serialCheck(w *World) {
 			return true, strings.Join(l, ";")
 		},
 	}
-	switch porcupine.CheckOperationsTimeout(model, ops, 20*time.Second) {
+	switch porcupine.CheckOperationsTimeout(model, ops, 5*time.Second) {
 	case porcupine.Illegal:
 		var sb strings.Builder
 		for _, o := range ops {
@@ -107,6 +110,9 @@ type pdOp struct {
 }
 
 func (s *pd6) serialCheck(w *World) {
+	if w.O.Prop != "C16" {
+		return // the serializability oracle belongs to C16; C08/C09 have their own per-answer oracles
+	}
 	var ops []porcupine.Operation
 	for _, dg := range w.DGs {
 		if !dg.Delivered || !dg.Handled {
@@ -188,7 +194,7 @@ func (s *pd6) serialCheck(w *World) {
 			return true, strings.Join(entries, ";")
 		},
 	}
-	switch porcupine.CheckOperationsTimeout(model, ops, 20*time.Second) {
+	switch porcupine.CheckOperationsTimeout(model, ops, 5*time.Second) {
 	case porcupine.Illegal:
 		var sb strings.Builder
 		for _, o := range ops {
